@@ -1,7 +1,7 @@
 T = "GeomV.C02."
 CFG = {
     "id": "C02",
-    "lean_modules": ["GeomV.C02.Proofs", "GeomV.C02.Ties", "GeomV.C02.ProofsFloat", "GeomV.C02.IEEE", "GeomV.C02.TiesLoops", "GeomV.C02.ProofsIEEE"],
+    "lean_modules": ["GeomV.C02.Proofs", "GeomV.C02.Ties", "GeomV.C02.ProofsFloat", "GeomV.C02.IEEE", "GeomV.C02.TiesLoops", "GeomV.C02.ProofsIEEE", "GeomV.C02.ProofsNaN"],
     "exe": "geomv_c02",
     "go_cmd": "c02",
     "stages": ["go:gen", "go:impl", "lean:judge"],
@@ -16,7 +16,8 @@ CFG = {
                                  "C02_tie_Point_Within", "C02_tie_MultiPoint_Within", "C02_tie_LineString_Within",
                                  "C02_tie_MultiLineString_Within", "C02_tie_Polygon_Within",
                                  "C02_float_point_regenerated", "C02_ieee_point_exact_on_scaled_grid",
-                                 "C02_ieee_ray_exact_on_scaled_grid", "C02_ieee_onSegment_exact_on_scaled_grid"]],
+                                 "C02_ieee_ray_exact_on_scaled_grid", "C02_ieee_onSegment_exact_on_scaled_grid",
+                                 "C02_nan_query_outside", "C02_inf_query_outside", "C02_nan_vertex_ring_ignored"]],
     "lean_dirs": ["C02"],
     "trusted_base": [
         "Lean 4.33.0 kernel; axioms of every theorem printed by #print axioms must be within {propext, Classical.choice, Quot.sound}",
@@ -39,7 +40,10 @@ CFG = {
         "Off those grids (margin-protected arbitrary floats) rounding is checked by the correspondence run, not proved",
         "harness/cmd/c02 + lean driver + lib/vcheck.py transport inputs faithfully",
     ],
-    "assumptions": ["finite coordinates (NaN/±Inf are outside the exact model; -0.0 is identified with 0 and exercised by the correspondence run)",
+    "assumptions": ["finite coordinates for the property theorems (the Rat model identifies -0.0 with 0). NaN/±Inf/-0.0: third rendering of the source "
+                    "over XF (XF.lean: IEEE comparison/sub/div/math.Min/Max with NaN, ±Inf, signed zero; finite results exact, no overflow) — "
+                    "ProofsNaN.lean proves NaN query → Outside, ±Inf query vs finite vertices → Outside, rings with a NaN vertex are dropped; "
+                    "the `nf` lines compare that rendering with the real code (DIFF only; outside the property's quantifier)",
                     "nil and empty slices are not distinguished (matters only for reflect.DeepEqual in Polygon.Within)"],
     "rule": "fixed corpus (degenerate, bow-tie, holes, multipolygons, *Bounds, -0.0, one-ulp edges) + EXHAUSTIVE: every ordered vertex triple on the "
             "integer grids [0,2]^2 and [0,3]^2 (closed and unclosed spelling) and on the half-integer grid {0,.5,..,2}^2 (thorough: also "
